@@ -576,6 +576,7 @@ type c18Final struct {
 	PodGroup map[string]string `json:"pod_group"` // pod -> pod group
 	SubGroup map[string]string `json:"sub_group"`
 	Groups   map[string]string `json:"groups"` // pod group -> essence (spec, labels, annotations, owner)
+	Derived  map[string]string `json:"derived"` // pod group -> the part of the essence that no other actor owns (no queue)
 }
 
 // c18Essence is what C18 says must not depend on the reconcile order: minimum member count, queue,
@@ -649,6 +650,99 @@ func runC18(t *testing.T, sc *C18Script) (res *Result) {
 		res.Probes["c18_differential_runs"]++
 		if d := c18Diff(base, other); d != "" && len(res.Violations) < 20 {
 			res.Violations = append(res.Violations, Violation{Prop: "C18", Rule: "order_dependent", Detail: fmt.Sprintf("reconcile order salt=%d k=%d: %s", alt.salt, alt.k, d)})
+		}
+	}
+	// history independence: grouping the final cluster from scratch (same owners incl. their label edits, the pods that
+	// are alive at the end, no pod groups, pods unassigned) must give the same groups - except for the fields other
+	// actors own (queue after creation, foreign edits)
+	live := map[string]bool{}
+	for p := range base.PodGroup {
+		live[p] = true
+	}
+	fresh := &C18Script{Workloads: sc.Workloads, DefaultsCM: sc.DefaultsCM}
+	deleted := map[string]bool{}
+	for _, st := range sc.Steps {
+		switch st.Kind {
+		case "owner_label", "schedule":
+			fresh.Steps = append(fresh.Steps, st)
+		}
+	}
+	var creates []C18Step
+	for wi := range sc.Workloads {
+		b := c18Build(&sc.Workloads[wi])
+		var idx []int
+		for pi, bp := range b.pods {
+			if live[bp.obj.Name] {
+				idx = append(idx, pi)
+			}
+		}
+		if len(idx) > 0 {
+			creates = append(creates, C18Step{Kind: "create", W: wi, Pods: idx})
+		}
+	}
+	_ = deleted
+	// schedule steps need their pods to exist: creates first, then label edits / scheduling, then one drain
+	fresh.Steps = append(append(creates, fresh.Steps...), C18Step{Kind: "drain", K: 1})
+	freshRes := &Result{Probes: map[string]int{}, Faults: map[string]int{}}
+	var ff *c18Final
+	func() {
+		defer func() {
+			if p := recover(); p != nil {
+				if msg := fmt.Sprint(p); !strings.Contains(msg, "deadlock: main bubble goroutine has exited") {
+					res.Panic = msg
+				}
+			}
+		}()
+		synctest.Test(t, func(t *testing.T) {
+			defer func() {
+				if p := recover(); p != nil {
+					res.Panic = fmt.Sprintf("%v\n%s", p, debug.Stack())
+				}
+			}()
+			ff = c18Body(fresh, freshRes, 0, 1, false)
+		})
+	}()
+	if res.Panic != "" || ff == nil {
+		return
+	}
+	res.Probes["c18_fresh_world_compared"]++
+	// a bare pod is skipped by the reconciler once it is assigned: whatever its first reconcile wrote (e.g. the default
+	// priority class after a failed PriorityClass read) is never revisited
+	hasFaults := false
+	for _, st := range sc.Steps {
+		if st.Kind == "fail" {
+			hasFaults = true
+		}
+	}
+	barePodGroup := map[string]bool{}
+	for wi := range sc.Workloads {
+		if sc.Workloads[wi].Kind != "pod" && sc.Workloads[wi].Kind != "spark" {
+			continue
+		}
+		for _, bp := range c18Build(&sc.Workloads[wi]).pods {
+			if g := base.PodGroup[bp.obj.Name]; g != "" {
+				barePodGroup[g] = true
+			}
+		}
+	}
+	sfxFor := func(g string) string {
+		if hasFaults && barePodGroup[g] {
+			return "_bare_pod_after_api_fault"
+		}
+		return ""
+	}
+	for _, p := range sortedKeys(base.PodGroup) {
+		if fp, ok := ff.PodGroup[p]; ok && fp != base.PodGroup[p] && len(res.Violations) < 20 {
+			res.Violations = append(res.Violations, Violation{Prop: "C18", Rule: "history_dependent_assignment", Detail: fmt.Sprintf("pod %s is in pod group %q after the history, but grouping the same final cluster from scratch puts it in %q", p, base.PodGroup[p], fp)})
+		}
+	}
+	for _, g := range sortedKeys(ff.Derived) {
+		if got, ok := base.Derived[g]; !ok {
+			if len(res.Violations) < 20 {
+				res.Violations = append(res.Violations, Violation{Prop: "C18", Rule: "history_dependent_group", Detail: fmt.Sprintf("pod group %s does not exist (or has no live pod) after the history, but grouping the same final cluster from scratch creates it", g)})
+			}
+		} else if got != ff.Derived[g] && len(res.Violations) < 20 {
+			res.Violations = append(res.Violations, Violation{Prop: "C18", Rule: "history_dependent_group" + sfxFor(g), Detail: fmt.Sprintf("pod group %s after the history: %s; grouping the same final cluster from scratch: %s", g, got, ff.Derived[g])})
 		}
 	}
 	return
@@ -974,7 +1068,7 @@ func c18Body(sc *C18Script, res *Result, salt, forceK int, check bool) *c18Final
 	}
 	c18CheckForeign(api, foreign, fail)
 
-	fin := &c18Final{PodGroup: map[string]string{}, SubGroup: map[string]string{}, Groups: map[string]string{}}
+	fin := &c18Final{PodGroup: map[string]string{}, SubGroup: map[string]string{}, Groups: map[string]string{}, Derived: map[string]string{}}
 	groups := map[string]*schedv2alpha2.PodGroup{}
 	live := map[string]bool{} // pod groups with at least one live pod: these were reconciled fault-free at the end
 	for _, p := range api.Pods() {
@@ -985,6 +1079,9 @@ func c18Body(sc *C18Script, res *Result, salt, forceK int, check bool) *c18Final
 		if live[g.Name] {
 			// a group whose pods are all gone keeps whatever its last (possibly fault-hit) reconcile wrote
 			fin.Groups[g.Name] = c18Essence(g)
+			gq := g.DeepCopy()
+			gq.Spec.Queue = ""
+			fin.Derived[g.Name] = c18Essence(gq)
 		}
 	}
 	// sibling rule
